@@ -1,5 +1,5 @@
 ENGINES = [
-    {"name": "csym", "path": "vt/csym.py", "serves_properties": ["C01", "C02", "C03", "C13", "C18"],
+    {"name": "csym", "path": "vt/csym.py", "serves_properties": ["C01", "C02", "C03", "C13", "C14", "C17", "C18"],
      "kind_free_text": "symbolic interpreter of traits/ctraits.c over clang's JSON AST (regenerated from the current source on every run), "
                        "CPython API contracts in vt/capi.py, shared path condition with symx; memory-safety assertions on every path"},
     {"name": "symx", "path": "vt/symx.py", "serves_properties": ["C01", "C03", "C04", "C05", "C06", "C07", "C13", "C15", "C17", "C20"],
@@ -147,4 +147,18 @@ CHECKS["C17"] = dict(
     design_ref="DESIGN.md section 4 C17", technique="symbolic execution of the real Python code with z3 (symx) against a z3 formula over all simple chains; counterexamples replayed",
     note="Assumes a factory's outcome depends only on which offer produced its adaptee. Endpoints/hierarchy: choice enumeration. "
          "Outside: more than 4 offers, other hierarchies, register_provides with Interface classes, cached protocol look-ups.")
+CHECKS["C14"] = dict(
+    engine="csym+symx",
+    text="(i) Trait-definition round trip decided on the C source: for 28 trait kinds built by the package's own constructors (scalars, "
+         "containers, ReadOnly, Constant, Event, Enum, Map, Range, Tuple, Either, delegates, four Property variants incl. validated and "
+         "cached/observed, items and trait_added events) the abstract record bridged from the real CTrait goes through the interpreted "
+         "_trait_getstate/_trait_setstate (clang AST): all five function designators, flags, default, delegate fields, handler and "
+         "descriptor are restored; the compiled pickle(2-5)/deepcopy round trip is replayed concretely (a crash of the worker is a "
+         "violation). (ii) Bounded histories (k=2 quick, 3 thorough state-building operations x 8 copiers): value equality, transient "
+         "reset, no shared containers, preserved aliasing, write-once stays written, and liveness probes on the copy (invalid scalar / "
+         "item / nested item rejected, items handlers of the copy only, observed and cached properties, declared observers and listeners).",
+    design_ref="DESIGN.md section 4 C14", technique="symbolic interpretation of the C source (clang AST) for the definition round trip; bounded exploration with concrete copies for object histories",
+    note="Part (ii): pickle and copy are C boundaries, so the solver contributes choice feasibility only (exhaustive bounded enumeration, "
+         "labelled so). Two known findings (post_init nested listeners not re-attached on copies; ReadOnly singleton and cached_property "
+         "definition objects not picklable by name). func_index termination: C18's table obligations.")
 NOT_APPLICABLE = {p: NOT_BUILT for p in ["C%02d" % i for i in range(1, 21)]}
